@@ -1,0 +1,11 @@
+//go:build verif
+
+// Contracts for package operations (comment-only; see /verif/DESIGN.md).
+
+package operations
+
+// AllOpRefsByRef reads the operations of the analyzed spec through the Provider interface and copies them.
+//@ func AllOpRefsByRef(specDoc, operationIDs)
+//@   assumed
+//@   modifies nothing
+//@   ensures result != nil
